@@ -120,8 +120,8 @@ Lemma fexp_sp s : fexp (32%N :: s). Proof. pose proof HYPS as Hyps. cbn. lia. Qe
 Lemma fexp_app_sp t s : fexp (([32%N] ++ t) ++ s). Proof. pose proof HYPS as Hyps. cbn. lia. Qed.
 
 (* a1 op a2 *)
-Lemma L_bin op t1 ts1 t2 ts2 : L opnd fexp t1 ts1 term -> L opnd fexp t2 ts2 term ->
-  L opnd fexp (t1 ++ [32%N] ++ binop_name op ++ [32%N] ++ t2) (ts1 ++ [(op_tok_typ op, binop_name op)] ++ ts2) term.
+Lemma L_bin_P (P : N -> Prop) op t1 ts1 t2 ts2 : L P fexp t1 ts1 term -> L opnd fexp t2 ts2 term ->
+  L P fexp (t1 ++ [32%N] ++ binop_name op ++ [32%N] ++ t2) (ts1 ++ [(op_tok_typ op, binop_name op)] ++ ts2) term.
 Proof.
   pose proof HYPS as Hyps.
   intros H1 H2.
@@ -132,6 +132,9 @@ Proof.
   - intros s _. rewrite <- app_assoc. apply fexp_sp.
   - auto.
 Qed.
+Lemma L_bin op t1 ts1 t2 ts2 : L opnd fexp t1 ts1 term -> L opnd fexp t2 ts2 term ->
+  L opnd fexp (t1 ++ [32%N] ++ binop_name op ++ [32%N] ++ t2) (ts1 ++ [(op_tok_typ op, binop_name op)] ++ ts2) term.
+Proof. pose proof HYPS as Hyps. apply L_bin_P. Qed.
 
 Definition T_tern : N * bstr := (itemTernIf, [63%N]).
 Definition T_col : N * bstr := (itemColon, [58%N]).
@@ -153,8 +156,8 @@ Proof.
 Qed.
 
 (* c ? x : y *)
-Lemma L_tern tc tsc tx tsx ty tsy : L opnd fexp tc tsc term -> L opnd fexp tx tsx term -> L opnd fexp ty tsy term ->
-  L opnd fexp (tc ++ [32; 63; 32]%N ++ tx ++ [32; 58; 32]%N ++ ty) (tsc ++ [T_tern] ++ tsx ++ [T_col] ++ tsy) term.
+Lemma L_tern_P (P : N -> Prop) tc tsc tx tsx ty tsy : L P fexp tc tsc term -> L opnd fexp tx tsx term -> L opnd fexp ty tsy term ->
+  L P fexp (tc ++ [32; 63; 32]%N ++ tx ++ [32; 58; 32]%N ++ ty) (tsc ++ [T_tern] ++ tsx ++ [T_col] ++ tsy) term.
 Proof.
   pose proof HYPS as Hyps.
   intros Hc Hx Hy.
@@ -168,14 +171,17 @@ Proof.
   - intros s _. cbn. lia.
   - auto.
 Qed.
+Lemma L_tern tc tsc tx tsx ty tsy : L opnd fexp tc tsc term -> L opnd fexp tx tsx term -> L opnd fexp ty tsy term ->
+  L opnd fexp (tc ++ [32; 63; 32]%N ++ tx ++ [32; 58; 32]%N ++ ty) (tsc ++ [T_tern] ++ tsx ++ [T_col] ++ tsy) term.
+Proof. pose proof HYPS as Hyps. apply L_tern_P. Qed.
 
 (* not a *)
 Definition s_not_w : bstr := [110; 111; 116]%N.
-Lemma L_not t ts : L opnd fexp t ts term -> L opnd fexp (s_not_w ++ [32%N] ++ t) ([(itemNot, s_not_w)] ++ ts) term.
+Lemma L_not_P (P : N -> Prop) t ts : L opnd fexp t ts term -> L P fexp (s_not_w ++ [32%N] ++ t) ([(itemNot, s_not_w)] ++ ts) term.
 Proof.
   pose proof HYPS as Hyps.
   intros H.
-  assert (Hw : L opnd stops s_not_w [(itemNot, s_not_w)] opnd).
+  assert (Hw : L P stops s_not_w [(itemNot, s_not_w)] opnd).
   { apply L_anyP. apply (L_eq_opnd _ _ _ _ _ (W lexes_word 110%N [111; 116]%N ltac:(lia) eq_refl eq_refl ltac:(discriminate) ltac:(discriminate)) eq_refl). }
   change ts with ([] ++ ts).
   refine (L_seq _ _ _ _ _ _ _ _ _ _ Hw (L_seq _ _ _ _ _ _ _ _ _ _ (W lexes_space opnd) H _ _) _ _).
@@ -184,6 +190,8 @@ Proof.
   - intros s _. cbn. split; [lia|reflexivity].
   - auto.
 Qed.
+Lemma L_not t ts : L opnd fexp t ts term -> L opnd fexp (s_not_w ++ [32%N] ++ t) ([(itemNot, s_not_w)] ++ ts) term.
+Proof. pose proof HYPS as Hyps. apply L_not_P. Qed.
 
 (* - a : the operand's text does not start with a digit *)
 Lemma L_neg t ts : L opnd fexp t ts term -> (forall s, head_ascii (t ++ s) /\ head_digit (t ++ s) = false) ->
@@ -248,9 +256,9 @@ Proof.
 Qed.
 
 (* name(args) *)
-Lemma L_func name (items : list (bstr * list (N * bstr))) : plain_word name ->
+Lemma L_func_P (P : N -> Prop) name (items : list (bstr * list (N * bstr))) : plain_word name ->
   (forall it, In it items -> L opnd fexp (fst it) (snd it) term) ->
-  L opnd fexp (name ++ [40%N] ++ join [44%N] (map fst items) ++ [41%N])
+  L P fexp (name ++ [40%N] ++ join [44%N] (map fst items) ++ [41%N])
               ((itemIdent, name) :: T_lp :: sepj [T_com] (map snd items) ++ [T_rp]) term.
 Proof.
   pose proof HYPS as Hyps.
@@ -258,12 +266,12 @@ Proof.
   change ((itemIdent, name) :: T_lp :: sepj [T_com] (map snd items) ++ [T_rp]) with ([(itemIdent, name)] ++ [T_lp] ++ sepj [T_com] (map snd items) ++ [T_rp]).
   destruct items as [|it items].
   - cbn [map join sepj app].
-    refine (L_seq _ _ _ _ _ _ _ _ _ _ (L_anyP opnd _ _ _ _ (L_ident name Hn)) (L_seq _ _ _ _ _ _ _ _ _ _ (L_lparen term anys) (L_rparen opnd fexp) _ _) _ _).
+    refine (L_seq _ _ _ _ _ _ _ _ _ _ (L_anyP P _ _ _ _ (L_ident name Hn)) (L_seq _ _ _ _ _ _ _ _ _ _ (L_lparen term anys) (L_rparen opnd fexp) _ _) _ _).
     + intros; exact I.
     + auto.
     + intros s _. cbn. split; [lia|reflexivity].
     + auto.
-  - refine (L_seq _ _ _ _ _ _ _ _ _ _ (L_anyP opnd _ _ _ _ (L_ident name Hn))
+  - refine (L_seq _ _ _ _ _ _ _ _ _ _ (L_anyP P _ _ _ _ (L_ident name Hn))
              (L_seq _ _ _ _ _ _ _ _ _ _ (L_lparen term anys)
                 (L_seq _ _ _ _ _ _ _ _ _ _ (L_sepj [44%N] [T_com] L_comma _ (it :: items) ltac:(discriminate) Hall) (L_rparen term fexp) _ _) _ _) _ _).
     + intros s. cbn. lia.
@@ -274,18 +282,23 @@ Proof.
     + intros s _. cbn. split; [lia|reflexivity].
     + auto.
 Qed.
+Lemma L_func name (items : list (bstr * list (N * bstr))) : plain_word name ->
+  (forall it, In it items -> L opnd fexp (fst it) (snd it) term) ->
+  L opnd fexp (name ++ [40%N] ++ join [44%N] (map fst items) ++ [41%N])
+              ((itemIdent, name) :: T_lp :: sepj [T_com] (map snd items) ++ [T_rp]) term.
+Proof. pose proof HYPS as Hyps. apply L_func_P. Qed.
 
 (* [a, b, c] *)
-Lemma L_list (items : list (bstr * list (N * bstr))) :
+Lemma L_list_P (P : N -> Prop) (items : list (bstr * list (N * bstr))) :
   (forall it, In it items -> L opnd fexp (fst it) (snd it) term) ->
-  L opnd fexp ([91%N] ++ join [44; 32]%N (map fst items) ++ [93%N]) (T_lb :: sepj [T_com] (map snd items) ++ [T_rb]) term.
+  L P fexp ([91%N] ++ join [44; 32]%N (map fst items) ++ [93%N]) (T_lb :: sepj [T_com] (map snd items) ++ [T_rb]) term.
 Proof.
   pose proof HYPS as Hyps.
   intros Hall.
-  assert (Hlb : L opnd anys [91%N] [T_lb] opnd).
+  assert (Hlb : L P anys [91%N] [T_lb] opnd).
   { apply L_anyP. apply (L_eq_opnd _ _ _ _ _ (W lexes_punct 91%N itemLeftBracket eq_refl) eq_refl). }
-  assert (Hrb : forall P, L P fexp [93%N] [T_rb] term).
-  { intros P. apply L_anyP, L_anyF. apply (L_eq_term _ _ _ _ _ (W lexes_punct 93%N itemRightBracket eq_refl) eq_refl). }
+  assert (Hrb : forall P', L P' fexp [93%N] [T_rb] term).
+  { intros P'. apply L_anyP, L_anyF. apply (L_eq_term _ _ _ _ _ (W lexes_punct 93%N itemRightBracket eq_refl) eq_refl). }
   change (T_lb :: sepj [T_com] (map snd items) ++ [T_rb]) with ([T_lb] ++ sepj [T_com] (map snd items) ++ [T_rb]).
   destruct items as [|it items].
   - cbn [map join sepj app]. refine (L_seq _ _ _ _ _ _ _ _ _ _ Hlb (Hrb opnd) _ _); [intros; exact I|auto].
@@ -297,6 +310,10 @@ Proof.
     + intros; exact I.
     + auto.
 Qed.
+Lemma L_list (items : list (bstr * list (N * bstr))) :
+  (forall it, In it items -> L opnd fexp (fst it) (snd it) term) ->
+  L opnd fexp ([91%N] ++ join [44; 32]%N (map fst items) ++ [93%N]) (T_lb :: sepj [T_com] (map snd items) ++ [T_rb]) term.
+Proof. pose proof HYPS as Hyps. apply L_list_P. Qed.
 
 (* ---------- map literals ---------- *)
 
@@ -323,11 +340,11 @@ Proof.
   - intros; exact I.
 Qed.
 
-Lemma L_empty_map : L opnd fexp [91; 58; 93]%N [T_lb; T_col; T_rb] term.
+Lemma L_empty_map_P (P : N -> Prop) : L P fexp [91; 58; 93]%N [T_lb; T_col; T_rb] term.
 Proof.
   pose proof HYPS as Hyps.
   change [91; 58; 93]%N with ([91%N] ++ [58%N] ++ [93%N]). change [T_lb; T_col; T_rb] with ([T_lb] ++ [T_col] ++ [T_rb]).
-  refine (L_seq _ _ _ _ _ _ _ _ _ _ (L_anyP opnd _ _ _ _ (L_eq_opnd _ _ _ _ _ (W lexes_punct 91%N itemLeftBracket eq_refl) eq_refl))
+  refine (L_seq _ _ _ _ _ _ _ _ _ _ (L_anyP P _ _ _ _ (L_eq_opnd _ _ _ _ _ (W lexes_punct 91%N itemLeftBracket eq_refl) eq_refl))
            (L_seq _ _ _ _ _ _ _ _ _ _ (L_anyP opnd _ _ _ _ (L_eq_opnd _ _ _ _ _ (W lexes_punct 58%N itemColon eq_refl) eq_refl))
               (L_anyP opnd _ _ _ _ (L_anyF _ fexp _ _ _ (L_eq_term _ _ _ _ _ (W lexes_punct 93%N itemRightBracket eq_refl) eq_refl))) _ _) _ _).
   - intros; exact I.
@@ -335,6 +352,8 @@ Proof.
   - intros; exact I.
   - auto.
 Qed.
+Lemma L_empty_map : L opnd fexp [91; 58; 93]%N [T_lb; T_col; T_rb] term.
+Proof. pose proof HYPS as Hyps. apply L_empty_map_P. Qed.
 
 (* ---------- data references ---------- *)
 
@@ -430,15 +449,15 @@ Proof.
 Qed.
 
 (* $key accesses *)
-Lemma L_dataref key (accs : list (bstr * list (N * bstr))) : alnums key ->
+Lemma L_dataref_P (P : N -> Prop) key (accs : list (bstr * list (N * bstr))) : alnums key ->
   (forall it, In it accs -> L term facc (fst it) (snd it) term /\ acc_head (fst it)) ->
-  L opnd fexp ([36%N] ++ key ++ concat_b (map fst accs)) ((itemDollarIdent, 36%N :: key) :: concat (map snd accs)) term.
+  L P fexp ([36%N] ++ key ++ concat_b (map fst accs)) ((itemDollarIdent, 36%N :: key) :: concat (map snd accs)) term.
 Proof.
   pose proof HYPS as Hyps.
   intros Hk Hall.
   change ((itemDollarIdent, 36%N :: key) :: concat (map snd accs)) with ([(itemDollarIdent, 36%N :: key)] ++ concat (map snd accs)).
   replace ([36%N] ++ key ++ concat_b (map fst accs)) with ((36%N :: key) ++ concat_b (map fst accs)) by reflexivity.
-  refine (L_seq _ _ _ _ _ _ _ _ _ _ (L_anyP opnd _ _ _ _ (L_eq_term _ _ _ _ _ (W lexes_dollar key Hk) eq_refl))
+  refine (L_seq _ _ _ _ _ _ _ _ _ _ (L_anyP P _ _ _ _ (L_eq_term _ _ _ _ _ (W lexes_dollar key Hk) eq_refl))
             (L_weaken _ _ _ _ _ _ _ _ (L_accs accs Hall) (fun ty H => H) (fun s (H : fexp s) => or_introl H) (fun ty H => H)) _ _).
   - intros s Hs. assert (Hf : facc (concat_b (map fst accs) ++ s)).
     { destruct accs as [|[t2 ts2] accs]; [left; exact Hs|]. right. cbn [map concat_b fst].
@@ -446,5 +465,9 @@ Proof.
     apply facc_stops. exact Hf.
   - auto.
 Qed.
+Lemma L_dataref key (accs : list (bstr * list (N * bstr))) : alnums key ->
+  (forall it, In it accs -> L term facc (fst it) (snd it) term /\ acc_head (fst it)) ->
+  L opnd fexp ([36%N] ++ key ++ concat_b (map fst accs)) ((itemDollarIdent, 36%N :: key) :: concat (map snd accs)) term.
+Proof. pose proof HYPS as Hyps. apply L_dataref_P. Qed.
 
 End Comb.
